@@ -1,1 +1,339 @@
-/-! C13 — property theorems (stub; no obligations yet) -/
+import Ypv.Lemmas.Keyword
+/-!
+# C13 — search keywords select by their definitions
+
+The model is `kwSearch` (`Model/Keyword.lean`, a branch-for-branch mirror of `KeywordSearches`
+after `fixes/C13-1.patch` and `fixes/C13-2.patch`).  Specifications are written here from the
+property statement.
+
+* `max_eq_spec` / `min_eq_spec` — on any collection whose comparable member values are ordered by a
+  total, transitive `le` that the loop's two comparisons decide (`ScanOrder`), `max`/`min` return
+  exactly the members whose value is `≥` (`≤`) every comparable member's, in document order, and
+  inverted exactly the other members (a permutation of them); proved with the best-so-far
+  invariant (`Lemmas/Keyword.lean`) for lists of any length.  `scanOrder_ints_max`,
+  `scanOrder_ints_min`: lists of ints satisfy the
+  hypothesis; `members_of_list`: the members of a plain list are its positions, nulls not comparable.
+* `has_child_map_eq_spec`, `has_child_aoh_eq_spec` — exactly the hashes having (inverted: lacking)
+  the key.
+* `parent_eq_spec`, `parent_default_eq_spec`, `parent_zero_eq_spec`, `parent_refuses_above_root` —
+  `parent(n)` is the address with `n` references dropped; more levels than the depth is refused.
+* `name_eq_spec` — the last reference of the address.
+* `unique_distinct_scalar_partial`, `distinct_groups_partial` — see the comments: the full
+  `unique`/`distinct` = "value occurs once" / "first of each equality class" statement over lists
+  is not proved in this round (what is missing is stated there).
+-/
+namespace Ypv.C13
+open Ypv
+
+/-! ## max / min -/
+
+/-- `c`'s value is at least every comparable member's. -/
+def isExtreme (le : Scalar → Scalar → Bool) (cs : List Cand) (c : Cand) : Bool :=
+  match c.2 with
+  | some x => (candVals cs).all (fun y => le y x)
+  | none => false
+
+/-- The members whose value is greatest (w.r.t. `le`), in document order. -/
+def Spec.extremes (le : Scalar → Scalar → Bool) (cs : List Cand) : List Addr :=
+  (cs.filter (isExtreme le cs)).map (·.1)
+
+/-- All other members, in document order. -/
+def Spec.others (le : Scalar → Scalar → Bool) (cs : List Cand) : List Addr :=
+  (cs.filter (fun c => !isExtreme le cs c)).map (·.1)
+
+theorem scan_eq_spec (better : Method) (le : Scalar → Scalar → Bool) (cs : List Cand)
+    (ho : ScanOrder better le (candVals cs)) :
+    ∃ st, mmScan better { best := none, hits := [], discards := [] } cs = .ok st ∧
+      st.hits = Spec.extremes le cs ∧ List.Perm st.discards (Spec.others le cs) := by
+  obtain ⟨st, hs, hi⟩ := mmScan_inv better le cs [] { best := none, hits := [], discards := [] }
+    (by simpa using ho) (.inl ⟨rfl, rfl, rfl, rfl⟩)
+  simp only [List.nil_append] at hi
+  refine ⟨st, hs, ?_⟩
+  rcases hi with ⟨_, h2, h3, h4⟩ | ⟨b, _, h2, h3, h4, h5⟩
+  · have hnone : ∀ c ∈ cs, isExtreme le cs c = false := by
+      intro c hc
+      cases hv : c.2 with
+      | none => simp [isExtreme, hv]
+      | some x => have := mem_candVals hc hv; rw [h2] at this; cases this
+    constructor
+    · rw [h3]; unfold Spec.extremes
+      rw [List.filter_eq_nil_iff.mpr (fun c hc => by simp [hnone c hc])]; rfl
+    · rw [h4]; unfold Spec.others
+      rw [List.filter_eq_self.mpr (fun c hc => by simp [hnone c hc])]
+  · have hcongr : ∀ c ∈ cs, good le b c = isExtreme le cs c := by
+      intro c hc
+      cases hv : c.2 with
+      | none => simp [good, isExtreme, hv]
+      | some x =>
+        have hx := mem_candVals hc hv
+        simp only [good, isExtreme, hv]
+        rw [Bool.eq_iff_iff, List.all_eq_true]
+        constructor
+        · intro hbx y hy; exact ho.trans y hy b h2 x hx (h3 y hy) hbx
+        · intro h; exact h b h2
+    constructor
+    · rw [h4]; unfold Spec.extremes
+      rw [List.filter_congr hcongr]
+    · have e : cs.filter (fun c => !good le b c) = cs.filter (fun c => !isExtreme le cs c) :=
+        List.filter_congr (fun c hc => by simp [hcongr c hc])
+      unfold Spec.others
+      rw [← e]
+      exact h5
+
+/-- **C13 max/min** (general form).  If `data` is a collection whose members are `cs`
+(`mmCands`) and the comparable values are ordered by `le` as the loop's comparisons decide, then
+the keyword returns exactly the extreme members in document order and, inverted, a permutation of
+exactly the other members.  `better = .gt` is `max`, `better = .lt` is `min` (with `le` reversed). -/
+theorem minmax_eq_spec (better : Method) (le : Scalar → Scalar → Bool) (data : Node) (a : Addr)
+    (inv : Bool) (ps : List Str) (cs : List Cand) (hps : ps.length ≤ 1)
+    (hc : mmCands data a ps.head? = .ok (some cs)) (ho : ScanOrder better le (candVals cs)) :
+    ∃ out, kwMinMax better data a inv ps = .ok (.nodes out) ∧
+      (inv = false → out = Spec.extremes le cs) ∧ (inv = true → List.Perm out (Spec.others le cs)) := by
+  obtain ⟨st, hs, h1, h2⟩ := scan_eq_spec better le cs ho
+  unfold kwMinMax
+  have : ¬ ps.length > 1 := by omega
+  simp only [this, if_false, hc, hs]
+  cases inv
+  · exact ⟨st.hits, rfl, fun _ => h1, fun h => (by cases h)⟩
+  · exact ⟨st.discards, rfl, fun h => (by cases h), fun _ => h2⟩
+
+/-- **C13 max**: members whose value is `≥` every other comparable member's; inverted: the others. -/
+theorem max_eq_spec (le : Scalar → Scalar → Bool) (data : Node) (a : Addr) (inv : Bool) (raw : Str)
+    (ps : List Str) (cs : List Cand) (hsplit : splitParams raw = .ok ps) (hps : ps.length ≤ 1)
+    (hc : mmCands data a ps.head? = .ok (some cs)) (ho : ScanOrder .gt le (candVals cs)) :
+    ∃ out, kwSearch data a inv .max raw = .ok (.nodes out) ∧
+      (inv = false → out = Spec.extremes le cs) ∧ (inv = true → List.Perm out (Spec.others le cs)) := by
+  unfold kwSearch; rw [hsplit]; exact minmax_eq_spec .gt le data a inv ps cs hps hc ho
+
+/-- **C13 min**: the same with the order reversed (`le x y` = "`y` is at most `x`"). -/
+theorem min_eq_spec (le : Scalar → Scalar → Bool) (data : Node) (a : Addr) (inv : Bool) (raw : Str)
+    (ps : List Str) (cs : List Cand) (hsplit : splitParams raw = .ok ps) (hps : ps.length ≤ 1)
+    (hc : mmCands data a ps.head? = .ok (some cs)) (ho : ScanOrder .lt le (candVals cs)) :
+    ∃ out, kwSearch data a inv .min raw = .ok (.nodes out) ∧
+      (inv = false → out = Spec.extremes le cs) ∧ (inv = true → List.Perm out (Spec.others le cs)) := by
+  unfold kwSearch; rw [hsplit]; exact minmax_eq_spec .lt le data a inv ps cs hps hc ho
+
+/-- `≤` on ints (anything else is not compared by the instances below). -/
+def intLe : Scalar → Scalar → Bool
+  | .int i, .int j => i ≤ j
+  | _, _ => true
+
+def intGe (x y : Scalar) : Bool := intLe y x
+
+theorem gt_int (i j : Int) : searchMatchesScalar noRx .gt (.int i) (.int j) = .ok (!decide (i ≤ j)) := by
+  have : (compare i j == Ordering.gt) = !decide (i ≤ j) := by
+    rw [Bool.eq_iff_iff]; simp [Int.compare_eq_gt]
+  simp [searchMatchesScalar, searchTyped, typedOfScalar, orderLadder, Typed.ordNum?, decCmp, this]
+
+theorem lt_int (i j : Int) : searchMatchesScalar noRx .lt (.int i) (.int j) = .ok (!decide (j ≤ i)) := by
+  have : (compare i j == Ordering.lt) = !decide (j ≤ i) := by
+    rw [Bool.eq_iff_iff]; simp [Int.compare_eq_lt]
+  simp [searchMatchesScalar, searchTyped, typedOfScalar, orderLadder, Typed.ordNum?, decCmp, this]
+
+theorem eq_int (i j : Int) :
+    searchMatchesScalar noRx .equals (.int i) (.int j) = .ok (decide (i ≤ j) && decide (j ≤ i)) := by
+  have : (i == j) = (decide (i ≤ j) && decide (j ≤ i)) := by
+    rw [Bool.eq_iff_iff]; simp; omega
+  simp [searchMatchesScalar, searchTyped, typedOfScalar, this]
+
+/-- Lists of ints meet the hypothesis of `max_eq_spec` with the usual order. -/
+theorem scanOrder_ints_max (vals : List Scalar) (h : ∀ v ∈ vals, ∃ i, v = .int i) :
+    ScanOrder .gt intLe vals := by
+  refine ⟨?_, ?_, ?_, ?_⟩
+  · intro x hx y hy
+    obtain ⟨i, rfl⟩ := h x hx; obtain ⟨j, rfl⟩ := h y hy
+    simp only [intLe, decide_eq_true_eq]; omega
+  · intro x hx y hy z hz
+    obtain ⟨i, rfl⟩ := h x hx; obtain ⟨j, rfl⟩ := h y hy; obtain ⟨k, rfl⟩ := h z hz
+    simp only [intLe, decide_eq_true_eq]; omega
+  · intro x hx b hb
+    obtain ⟨i, rfl⟩ := h x hx; obtain ⟨j, rfl⟩ := h b hb
+    simp [gt_int, intLe]
+  · intro x hx b hb
+    obtain ⟨i, rfl⟩ := h x hx; obtain ⟨j, rfl⟩ := h b hb
+    simp [eq_int, intLe]
+
+/-- … and of `min_eq_spec` with the reversed order. -/
+theorem scanOrder_ints_min (vals : List Scalar) (h : ∀ v ∈ vals, ∃ i, v = .int i) :
+    ScanOrder .lt intGe vals := by
+  refine ⟨?_, ?_, ?_, ?_⟩
+  · intro x hx y hy
+    obtain ⟨i, rfl⟩ := h x hx; obtain ⟨j, rfl⟩ := h y hy
+    simp only [intGe, intLe, decide_eq_true_eq]; omega
+  · intro x hx y hy z hz
+    obtain ⟨i, rfl⟩ := h x hx; obtain ⟨j, rfl⟩ := h y hy; obtain ⟨k, rfl⟩ := h z hz
+    simp only [intGe, intLe, decide_eq_true_eq]; omega
+  · intro x hx b hb
+    obtain ⟨i, rfl⟩ := h x hx; obtain ⟨j, rfl⟩ := h b hb
+    simp [lt_int, intGe, intLe]
+  · intro x hx b hb
+    obtain ⟨i, rfl⟩ := h x hx; obtain ⟨j, rfl⟩ := h b hb
+    simp [eq_int, intGe, intLe, Bool.and_comm]
+
+/-- The members of a plain list are its positions; a null is not comparable, a scalar is its value. -/
+theorem members_of_list (a : Addr) : ∀ (items : List Node) (i : Nat),
+    (∀ n ∈ items, n.isScalar = true) →
+    candsList a items i = .ok ((items.zipIdx i).map (fun (n, j) =>
+      (a ++ [.idx j], match n with | .scalar _ .null => none | .scalar _ v => some v | _ => none)))
+  | [], _, _ => rfl
+  | n :: rest, i, h => by
+    have ih := members_of_list a rest (i + 1) (fun n' hn' => h n' (by simp [hn']))
+    have hn := h n (by simp)
+    unfold candsList
+    cases n with
+    | scalar anc v =>
+      rw [ih]
+      cases v <;> simp [comparable, List.zipIdx_cons]
+    | seq _ _ => simp [Node.isScalar] at hn
+    | map _ _ => simp [Node.isScalar] at hn
+    | set _ _ => simp [Node.isScalar] at hn
+
+/-! ## has_child -/
+
+/-- **C13 has_child** on a hash: the hash itself iff it has (inverted: lacks) the key. -/
+theorem has_child_map_eq_spec (anc : Option Str) (es : List (Key × Node)) (a : Addr) (inv : Bool) (k : Str)
+    (c : Char) (r : Str) (hk : k = c :: r) (hamp : c ≠ '&') :
+    hasChild (.map anc es) a inv [k] =
+      .ok (.nodes (if ((es.lookup (.str k)).isSome != inv) then [a] else [])) := by
+  subst hk
+  simp only [hasChild]
+  split
+  · rename_i h; cases h
+  · rename_i h; simp only [List.cons.injEq] at h; exact absurd h.1 hamp
+  · cases h : (List.lookup (Key.str (c :: r)) es).isSome <;> cases inv <;>
+      simp [hasConcreteChild, hasChildMap, attrOf, Except.map, yieldIf, h]
+
+/-- The members of an Array-of-Hashes that have (inverted: lack) the key, in document order. -/
+def Spec.hashesWithKey (inv : Bool) (k : Str) (a : Addr) (items : List Node) (i : Nat) : List Addr :=
+  (items.zipIdx i).filterMap (fun (n, j) =>
+    match n with
+    | .map _ es => if ((es.lookup (.str k)).isSome != inv) then some (a ++ [.idx j]) else none
+    | _ => none)
+
+/-- **C13 has_child** over an Array-of-Hashes: exactly the member hashes having (lacking) the key. -/
+theorem has_child_aoh_eq_spec (inv : Bool) (k : Str) (a : Addr) : ∀ (items : List Node) (i : Nat),
+    hasChildAoh inv k a items i = Spec.hashesWithKey inv k a items i
+  | [], _ => rfl
+  | n :: rest, i => by
+    have ih := has_child_aoh_eq_spec inv k a rest (i + 1)
+    unfold Spec.hashesWithKey at ih ⊢
+    cases n with
+    | map anc es =>
+      unfold hasChildAoh
+      rw [ih]
+      cases h : (List.lookup (Key.str k) es).isSome <;> cases inv <;>
+        simp [hasChildMap, attrOf, yieldIf, List.zipIdx_cons, h]
+    | scalar _ _ => unfold hasChildAoh; rw [ih]; simp [List.zipIdx_cons]
+    | seq _ _ => unfold hasChildAoh; rw [ih]; simp [List.zipIdx_cons]
+    | set _ _ => unfold hasChildAoh; rw [ih]; simp [List.zipIdx_cons]
+
+/-! ## parent, name -/
+
+/-- The address with `n` references dropped from its end. -/
+def Spec.ancestor (a : Addr) : Nat → Addr
+  | 0 => a
+  | n + 1 => (Spec.ancestor a n).dropLast
+
+theorem ancestor_eq_take (a : Addr) : ∀ n, Spec.ancestor a n = a.take (a.length - n)
+  | 0 => by simp [Spec.ancestor]
+  | n + 1 => by
+    rw [Spec.ancestor, ancestor_eq_take a n, List.dropLast_eq_take, List.length_take, List.take_take]
+    congr 1; omega
+
+/-- **C13 parent(n)**, `1 ≤ n ≤ depth`: the `n`-th ancestor of the current node. -/
+theorem parent_eq_spec (a : Addr) (p : Str) (n : Nat) (hp : pyInt? p = some (n : Int)) (h1 : 1 ≤ n)
+    (hn : n ≤ a.length) : kwParent a false [p] = .ok (.nodes [Spec.ancestor a n]) := by
+  unfold kwParent
+  have c1 : ¬ ((n : Int) > (a.length : Int)) := by omega
+  have c2 : ¬ ((n : Int) < 1) := by omega
+  simp [hp, c1, c2, ancestor_eq_take]
+
+/-- `parent()` without a parameter climbs one level. -/
+theorem parent_default_eq_spec (a : Addr) (hn : 1 ≤ a.length) :
+    kwParent a false [] = .ok (.nodes [Spec.ancestor a 1]) := by
+  unfold kwParent
+  have c1 : ¬ ((1 : Int) > (a.length : Int)) := by omega
+  simp [c1, ancestor_eq_take]
+
+/-- `parent(0)` (and any `n < 1`) is the present node. -/
+theorem parent_zero_eq_spec (a : Addr) (p : Str) (z : Int) (hp : pyInt? p = some z) (hz : z < 1) :
+    kwParent a false [p] = .ok (.nodes [a]) := by
+  unfold kwParent
+  have c1 : ¬ (z > (a.length : Int)) := by omega
+  simp [hp, c1, hz]
+
+/-- **C13**: `parent(n)` refuses to climb above the root — a YAML Path error, never a result. -/
+theorem parent_refuses_above_root (a : Addr) (p : Str) (z : Int) (hp : pyInt? p = some z)
+    (hz : z > (a.length : Int)) : kwParent a false [p] = .error (.ypath .generic) := by
+  unfold kwParent
+  simp [hp, hz, ypathErr]
+
+/-- **C13 name()**: the key or index under which the current node is held (none at the root). -/
+theorem name_eq_spec (a : Addr) : kwName a false [] = .ok (.name a.getLast?) := rfl
+
+/-! ## unique / distinct
+
+Full statement (not proved in this round):
+`unique_eq_spec : kwUnique (.seq anc items) a inv [] = .ok (.nodes (positions whose value occurs
+exactly once (inverted: more than once) among the items under Python ==))` and
+`distinct_eq_spec : … = positions of the first member of each ==-class`, for lists, Array-of-Hashes
+and hashes of hashes of any length.  Missing: the invariant of `groupInsert` (keys pairwise
+non-equal, each group = the members equal to its key, in order), which needs `pyEq` to be an
+equivalence on the member values (transitivity of `decCmp` across int/float/bool).  What is proved:
+the non-complex case and the group-insertion step. -/
+
+/-- Non-complex data is always unique and distinct; inverted `unique` yields nothing. -/
+theorem unique_distinct_scalar_partial (anc : Option Str) (v : Scalar) (a : Addr) (inv : Bool) :
+    kwUnique (.scalar anc v) a inv [] = .ok (.nodes (if inv then [] else [a])) ∧
+    kwDistinct (.scalar anc v) a false [] = .ok (.nodes [a]) := ⟨rfl, rfl⟩
+
+/-- One insertion: the first group whose key equals the value (Python `==`) receives the member
+at its end; if there is none, a new group is opened at the end.  Group order never changes. -/
+theorem distinct_groups_partial (v : Scalar) (a : Addr) : ∀ (g : Groups),
+    (groupInsert g v a).map (·.1) = (if g.any (fun grp => pyEq grp.1 v) then g.map (·.1) else g.map (·.1) ++ [v])
+  | [] => rfl
+  | (k, as) :: rest => by
+    unfold groupInsert
+    cases h : pyEq k v
+    · simp only [Bool.false_eq_true, if_false, List.map_cons, List.any_cons, h, Bool.false_or]
+      rw [distinct_groups_partial v a rest]
+      split <;> simp
+    · simp [h]
+
+/-! ## Witnesses -/
+
+def ex1 : Node := .seq none [.scalar none (.int 2), .scalar none (.int 10), .scalar none .null,
+  .scalar none (.int 9), .scalar none (.int 10)]
+
+example : kwSearch ex1 [] false .max [] = .ok (.nodes [[.idx 1], [.idx 4]]) := by decide +kernel
+example : kwSearch ex1 [] true .max [] = .ok (.nodes [[.idx 0], [.idx 2], [.idx 3]]) := by decide +kernel
+example : kwSearch ex1 [] false .min [] = .ok (.nodes [[.idx 0]]) := by decide +kernel
+example : kwSearch ex1 [] false .unique [] = .ok (.nodes [[.idx 0], [.idx 2], [.idx 3]]) := by decide +kernel
+example : kwSearch ex1 [] true .unique [] = .ok (.nodes [[.idx 1], [.idx 4]]) := by decide +kernel
+example : kwSearch ex1 [] false .distinct [] = .ok (.nodes [[.idx 0], [.idx 1], [.idx 2], [.idx 3]]) := by
+  decide +kernel
+example : candsList [] [.scalar none (.int 2), .scalar none .null] 0
+    = .ok [([.idx 0], some (.int 2)), ([.idx 1], none)] := by decide +kernel
+/-- the hypothesis of `max_eq_spec` is met by a concrete list of ints -/
+example : ScanOrder .gt intLe [.int 2, .int 10, .int 9] :=
+  scanOrder_ints_max _ (by intro v hv; simp at hv; rcases hv with rfl | rfl | rfl <;> exact ⟨_, rfl⟩)
+
+def aoh : Node := .seq none [.map none [(.str ['a'], .scalar none (.int 5))],
+  .map none [(.str ['a'], .scalar none .null)], .map none [(.str ['b'], .scalar none (.int 1))]]
+
+/-- a null attribute is not comparable: the member is never the maximum (the pinned code returned
+it: `fixes/C13-1.patch`) -/
+example : kwSearch aoh [] false .max ['a'] = .ok (.nodes [[.idx 0]]) := by decide +kernel
+example : kwSearch aoh [] true .max ['a'] = .ok (.nodes [[.idx 1], [.idx 2]]) := by decide +kernel
+example : kwSearch aoh [] false .hasChild ['a'] = .ok (.nodes [[.idx 0], [.idx 1]]) := by decide +kernel
+example : kwSearch aoh [] true .hasChild ['a'] = .ok (.nodes [[.idx 2]]) := by decide +kernel
+example : kwSearch aoh [.key (.str ['l']), .idx 1] false .parent ['1'] = .ok (.nodes [[.key (.str ['l'])]]) := by
+  decide +kernel
+example : kwSearch aoh [.key (.str ['l'])] false .parent ['2'] = .error (.ypath .generic) := by decide +kernel
+example : kwSearch aoh [.key (.str ['l']), .idx 1] false .name [] = .ok (.name (some (.idx 1))) := by decide +kernel
+/-- the splitter's `ValueError` and a list holding a hash under `unique()` (C15's `TypeError`) -/
+example : splitParams "'a".toList = .error (.crash .valueError) := by decide +kernel
+example : kwSearch (.seq none [.scalar none (.str ['a']), .map none []]) [] false .unique []
+    = .error (.crash .typeError) := by decide +kernel
+
+end Ypv.C13
